@@ -10,6 +10,7 @@ import (
 	"time"
 
 	remoteexecution "github.com/bazelbuild/remote-apis/build/bazel/remote/execution/v2"
+	"github.com/buildbarn/bb-storage/pkg/blobstore/buffer"
 	"github.com/buildbarn/bb-storage/pkg/blobstore/grpcservers"
 	"google.golang.org/genproto/googleapis/bytestream"
 	"google.golang.org/grpc/codes"
@@ -28,6 +29,10 @@ import (
 //	bigfront <KiB> <failAt>     a frontend (ByteStream server of this repository over the zstd
 //	                            client) serves an identity Read whose failAt-th Send fails
 //	                            (0 = never; then the exact content must arrive)
+//	bigput <KiB> <mode>         the plain client uploads the object in chunks of 1 KiB (hundreds
+//	                            of messages) to a backend that finishes early: reject<code> =
+//	                            its Put fails at once with that code, accept = it returns nil at
+//	                            once (object already present), full = it consumes the upload
 const bigChunk = 1 << 16
 
 var (
@@ -95,10 +100,69 @@ func (s *slowFailStream) Send(r *bytestream.ReadResponse) error {
 	return nil
 }
 
+// execBigPut: the client's Put result must be the backend's: same code and message tag, nil iff nil.
+func (w *world) execBigPut(kib int, mode string) string {
+	b := bigBlob(kib)
+	env := getNet(1024)
+	store := newMemBackend(false)
+	store.maxSize = 8 << 20
+	want := "ok"
+	switch {
+	case mode == "full":
+	case mode == "accept":
+		store.putSkip = true
+	case strings.HasPrefix(mode, "reject"):
+		c, err := strconv.Atoi(strings.TrimPrefix(mode, "reject"))
+		if err != nil || c <= 0 || c > 16 {
+			return "harness-error bad mode " + mode
+		}
+		store.putErr, store.putEarly = codes.Code(c), true
+		want = fmt.Sprintf("err %d injected", c)
+	default:
+		return "harness-error bad mode " + mode
+	}
+	env.backend.mu.Lock()
+	env.backend.cur = store
+	env.backend.mu.Unlock()
+	d, err := sha256Function.NewDigest(b.hash, b.size)
+	if err != nil {
+		return "harness-error " + err.Error()
+	}
+	ctx, cancel := context.WithTimeout(context.Background(), 20*time.Second)
+	defer cancel()
+	got := watchdog(10*time.Second, func() string {
+		if err := env.plain.Put(ctx, d, buffer.NewValidatedBufferFromByteSlice(b.data)); err != nil {
+			return "err " + errTag(err)
+		}
+		return "ok"
+	})
+	if got == "hang" {
+		dropNet(1024)
+		return "hang put"
+	}
+	if got != want {
+		return fmt.Sprintf("put-result client=%q backend=%q", got, want)
+	}
+	if mode == "full" && !bytes.Equal(store.blobs[key(b.hash, b.size)], b.data) {
+		return "wrong-data stored"
+	}
+	if mode != "full" && len(store.blobs) != 0 {
+		return "wrong-data stored although the backend did not consume the upload"
+	}
+	return "ok"
+}
+
 func (w *world) execBig(line string) string {
 	f := strings.Fields(line)
 	if len(f) != 3 {
 		return "harness-error bad " + line
+	}
+	if f[0] == "bigput" {
+		kib, err := strconv.Atoi(f[1])
+		if err != nil || kib <= 0 || kib > 4096 {
+			return "harness-error bad " + line
+		}
+		return w.execBigPut(kib, f[2])
 	}
 	kib, err1 := strconv.Atoi(f[1])
 	arg, err2 := strconv.Atoi(f[2])
